@@ -15,6 +15,7 @@ pub mod c10;
 pub mod zone;
 pub mod tzdb;
 pub mod c19;
+pub mod c11;
 pub mod c20;
 
 pub fn generate(suite: &str, tier: &str, seed: u64) -> Vec<String> {
@@ -36,6 +37,7 @@ pub fn generate(suite: &str, tier: &str, seed: u64) -> Vec<String> {
         "c13" => zone::generate_c13(&mut rng, thorough),
         "c15" => tzdb::generate(&mut rng, thorough),
         "c19" => c19::generate(&mut rng, thorough),
+        "c11" => c11::generate(&mut rng, thorough),
         "c20" => c20::generate(&mut rng, thorough),
         "c14" => zone::generate_c14(&mut rng, thorough),
         _ => panic!("unknown suite {suite}"),
@@ -80,6 +82,11 @@ pub fn eval_more(t: &[&str]) -> String {
     }
     if let Some(s) = c20::eval(t) {
         return s;
+    }
+    if t[0].starts_with("f_") || t[0].starts_with("rt_") {
+        if let Some(s) = c11::eval(t) {
+            return s;
+        }
     }
     if let Some(s) = c19::eval(t) {
         return s;
